@@ -92,6 +92,54 @@ def gen_cases(rng, tier):
                       'vec': fqeio.random_state(rng, norb, keys, density=0.8, amp=2),
                       'ham': {'cls': 'fop', 'rank': 0, 'entries': terms, 'e0': [0, 0], 'real': False},
                       't': rng.choice([1, 2, -3])})
+    # structured one-body operators around every decision of the classification cascade (process_rank2_matrix):
+    # the alpha and beta blocks agree / differ only on the diagonal / only off the diagonal / are coupled
+    def both_spins(i, j, c):
+        out = []
+        for sp in (0, 1):
+            ops = [[2 * i + sp, 1], [2 * j + sp, 0]]
+            out.append([ops, 24 * c[0], 24 * c[1]])
+            if i != j:
+                out.append([[[q, 1 - d] for q, d in reversed(ops)], 24 * c[0], -24 * c[1]])
+        return out
+    for variant in ('same_blocks', 'diag_differs', 'offdiag_differs', 'one_flip', 'diag_differs_plus_two_body'):
+        for rep in range(2 if tier == 'quick' else 6):
+            norb = rng.randint(2, 3)
+            terms = []
+            for i in range(norb):
+                for j in range(i):
+                    if rng.random() < 0.8:
+                        terms += both_spins(i, j, [rng.randint(-2, 2) or 1, rng.randint(-1, 1)])
+            if not terms:
+                terms += both_spins(1, 0, [1, 1])
+            for i in range(norb):
+                e = rng.randint(-2, 2)
+                terms += both_spins(i, i, [e, 0]) if e else []
+            if variant in ('diag_differs', 'diag_differs_plus_two_body'):
+                i = rng.randrange(norb)
+                terms.append([[[2 * i + 1, 1], [2 * i + 1, 0]], 24 * (rng.randint(1, 3)), 0])
+            elif variant == 'offdiag_differs':
+                i, j = rng.sample(range(norb), 2)
+                ops = [[2 * i + 1, 1], [2 * j + 1, 0]]
+                terms += [[ops, 24, 24], [[[q, 1 - d] for q, d in reversed(ops)], 24, -24]]
+            elif variant == 'one_flip':
+                i, j = rng.randrange(norb), rng.randrange(norb)
+                ops = [[2 * i, 1], [2 * j + 1, 0]]
+                terms += [[ops, 24, 0], [[[q, 1 - d] for q, d in reversed(ops)], 24, 0]]
+            if variant == 'diag_differs_plus_two_body':
+                p, q = rng.sample(range(2 * norb), 2)
+                terms.append([[[p, 1], [p, 0], [q, 1], [q, 0]], 24, 0])
+            mode = 'sb' if variant == 'one_flip' else 'ns'
+            if mode == 'ns':
+                na, nb = rng.randint(0, norb), rng.randint(1, norb)
+                nn, sz = na + nb, na - nb
+            else:
+                nn, sz = rng.randint(1, 2 * norb - 1), 0
+            keys = fqeio.sector_keys(norb, mode, nn, sz)
+            cases.append({'kind': 'fop', 'recipe': 'struct_' + variant, 'norb': norb, 'mode': mode, 'n': nn, 'sz': sz,
+                          'vec': fqeio.random_state(rng, norb, keys, density=0.8, amp=2),
+                          'ham': {'cls': 'fop', 'rank': 0, 'entries': terms, 'e0': [0, 0], 'real': False},
+                          't': rng.choice([1, 2, -3])})
     # gather_nbody_spin_sectors on single operator strings: normal-ordered ones (what the compiler feeds it)
     # and arbitrary ones (the model mirrors the code there too; Sort.gather_unsorted_refuted)
     for k in range(60 if tier == 'quick' else 400):
